@@ -31,6 +31,17 @@ BUDGET = {"quick": {"workers": 6, "examples": 150, "seconds": 40},
 def cases(draw):
     desc = draw(gen.dcops(min_vars=1, max_vars=6, max_dom=3, max_constraints=7, arities=(1, 2, 2, 3),
                           var_costs=True, costs=gen.mixed_costs))
+    if draw(st.integers(0, 5)) == 0:
+        # integer costs on an offset of 2^33 ("large penalty plus small preference"): sums stay exact in float64, but
+        # candidates differ by a few units out of ~10^10
+        def lift(t):
+            return [lift(x) for x in t] if isinstance(t, list) else (t + 2 ** 33 if isinstance(t, int) else t)
+        for c in desc["constraints"]:
+            if c["kind"] == "matrix":
+                c["table"] = lift(c["table"])
+        for v in desc["variables"]:
+            if v.get("cost") and v["cost"]["kind"] == "dict":
+                v["cost"]["costs"] = lift(v["cost"]["costs"])
     return {"dcop": desc, "schedule": draw(gen.schedules(60)), "schedule2": draw(gen.schedules(60)),
             "algo_seed": draw(st.integers(0, 1000))}
 
